@@ -51,7 +51,7 @@ def run_scenarios(n, seed):
             for _ in range(4):
                 m = rng.choice(mods)
                 prefix = rng.choice([None, "ok", "ok1", "P", "P.", "renamed", "zzz", "o"])
-                limit = rng.choice([1, 2, 3, 2000])
+                limit = rng.choice([0, 1, 2, 3, 2000])
                 spec = m if prefix is None else "%s:%s" % (m, prefix)
                 rc, crashed, out, err = cli_run(["--limit", str(limit), "stub", "--sample-count", spec], db)
                 counts = [{"fn": cps(mm.group(1)[len(m) + 1:]), "count": int(mm.group(2))}
